@@ -234,7 +234,7 @@ class Escape:
                         alt = norm(self.fn(fr)._expand(st, 3, set()))
                     except Exception:
                         alt = text
-                if alt and alt.startswith(s["stmt"]):
+                if alt and (alt.startswith(s["stmt"]) or ("stmt_x" in s and alt == s["stmt_x"])):
                     self.used_suppressions.add(i)
                     return s
         return None
